@@ -337,10 +337,14 @@ func notifyNameChange(pn *pathNode) {
 	// parent fid goes with it, to the node above, whose childMu the traversal
 	// still holds while it descends.
 	var held []*fidRef
+	defer func() {
+		// Deferred: if a Renamed panics, the traversal's own locks are released
+		// by the time this runs, and the references still have to go.
+		for _, ref := range held {
+			ref.DecRef()
+		}
+	}()
 	notifyNameChangeHolding(pn, &held)
-	for _, ref := range held {
-		ref.DecRef()
-	}
 }
 
 // notifyNameChangeHolding is the recursion step of notifyNameChange; the
@@ -364,26 +368,47 @@ func notifyNameChangeHolding(pn *pathNode, held *[]*fidRef) {
 //
 // Precondition: this must be called via safelyGlobal.
 func (f *fidRef) renameChildTo(oldName string, target *fidRef, newName string) {
+	// The backend methods called from here (Renamed, and Close when a last
+	// reference goes) may panic. The path tree bookkeeping is completed
+	// regardless and the first panic is raised again at the end: the backend
+	// has renamed the entry already, and references left half-moved - gone
+	// from the old name, not yet under the new one - make later requests
+	// through those fids fail.
+	var postponed interface{}
+	guard := func(fn func()) {
+		defer func() {
+			if r := recover(); r != nil && postponed == nil {
+				postponed = r
+			}
+		}()
+		fn()
+	}
+
 	target.markChildDeleted(newName)
 	origPathNode := f.pathNode.removeWithName(oldName, func(ref *fidRef) {
 		// N.B. DecRef can take f.pathNode's parent's childMu. This is
 		// allowed because renameMu is held for write via safelyGlobal.
-		ref.parent.DecRef() // Drop original reference.
-		ref.parent = target // Change parent.
-		ref.parent.IncRef() // Acquire new one.
+		oldParent := ref.parent
+		guard(func() { oldParent.DecRef() }) // Drop original reference.
+		ref.parent = target                  // Change parent.
+		ref.parent.IncRef()                  // Acquire new one.
 		if f.pathNode == target.pathNode {
 			target.pathNode.addChildLocked(ref, newName)
 		} else {
 			target.pathNode.addChild(ref, newName)
 		}
-		ref.file.Renamed(target.file, newName)
+		guard(func() { ref.file.Renamed(target.file, newName) })
 	})
 
 	if origPathNode != nil {
 		// Replace the previous (now deleted) path node.
 		target.pathNode.addPathNodeFor(newName, origPathNode)
 		// Call Renamed on all children.
-		notifyNameChange(origPathNode)
+		guard(func() { notifyNameChange(origPathNode) })
+	}
+
+	if postponed != nil {
+		panic(postponed)
 	}
 }
 
